@@ -118,13 +118,21 @@ func (l *leaderDB) RegisterQueryHandler(partition int, query planner.QueryCluste
 		if onRow != nil {
 			or = func(key bytemap.ByteMap, vals core.Vals) (bool, error) {
 				event(q, partition, "leader", "row", digestRow(key, vals))
-				return onRow(key, vals)
+				more, err := onRow(key, vals)
+				if !more || err != nil {
+					event(q, partition, "leader", "stop", "")
+				}
+				return more, err
 			}
 		}
 		if onFlatRow != nil {
 			ofr = func(r *core.FlatRow) (bool, error) {
 				event(q, partition, "leader", "row", digestFlat(r))
-				return onFlatRow(r)
+				more, err := onFlatRow(r)
+				if !more || err != nil {
+					event(q, partition, "leader", "stop", "")
+				}
+				return more, err
 			}
 		}
 		stats, err := query(ctx, sqlString, isSubQuery, subQueryResults, unflat, of, or, ofr)
